@@ -4,11 +4,15 @@ CONF = dict(
     cmd='c18',
     props='Props/C18.v',
     rule=('int64 nanosecond counts (extremes, multiples of a second +-1, powers of two +-2, random) for the timeval split; all-range and boundary scaled-ppm values; '
- 'drift (drift, interval) pairs; 48-bit CSPTP seconds x nanoseconds incl. range ends and out-of-range times; 64-bit correction fields; '
+ 'drift: (drift, interval) pairs incl. realistic drifts (1 us/s .. 1 ms/s and random) with intervals for which drift x interval exceeds 2^63 ns^2 while the '
+ 'allowance drift x interval / 1e9 stays below 2^62 ns (500 us/s x 6 h, 50 us/s x 60 h, log-uniform up to the limit; tag drift-product-over-int64), and triples '
+ '(drift, d1, d2) observed at d1, d2 and d1 + d2 (kind units.drift_add); tag drift-oracle = the pair lies in the range the drift oracle constrains; 48-bit CSPTP seconds x nanoseconds incl. range ends and out-of-range times; 64-bit correction fields; '
  '(t0,t2,theta,delta,c1,c3) tuples for the offset/delay formulas. Non-trivial: negative nanosecond counts, non-zero in-range ppm values, non-zero drift, wire '
  'round trips, negative correction fields with sub-ns bits, formula recovery cases; distinct = distinct (kind, input)'),
     assumptions=['float64 arithmetic of Go on amd64 = IEEE-754 binary64 round-to-nearest-even without FMA contraction (Flocq BinarySingleNaN); int64(float64) = CVTTSD2SI '
  '(-2^63 when out of range)',
+ 'drift clause: 0 < drift <= MaxInt64, 0 <= interval <= MaxInt64, drift x interval < 2^62 x 10^9 (allowance below 2^62 ns); negative intervals/drifts and allowances in '
+ '[2^62, 2^63) ns are compared with the model only (oracle true there)',
  "CSPTP formula theorems: all magnitudes below 2^60 ns so that no int64 operation wraps (the property's 'combinations that do not overflow')"],
     trusted=['Flocq 4 (IEEE754.BinarySingleNaN/Binary/Bits) as the float64 semantics; theorems of this property that are purely integer are closed under the global '
  'context',
@@ -17,7 +21,10 @@ CONF = dict(
  'csptp conversion/offset formulas; differential execution of the extracted model (bit-exact floats) against the Go functions'),
     level_text=('Theorems quantify over all int64 nanosecond counts, all 48-bit/ns CSPTP timestamps, all 64-bit correction fields and all non-overflowing offset/delay '
  'combinations; the float functions are modelled bit-exactly with Flocq and compared bit-for-bit with Go every run; the property oracle (normalisation, +-1 '
- "ulp ppm round trip, floor of correction fields, exact recovery of offset/delay) is evaluated on the implementation's outputs"),
+ 'ulp ppm round trip, drift allowance >= 0, zero for the empty interval, within 1 ns + 2^-48 of drift x interval / 1e9, monotone and additive over two '
+ "intervals, floor of correction fields, exact recovery of offset/delay) is evaluated on the implementation's outputs"),
     level_note=('Trusted: Coq kernel, Flocq as float semantics, hand-written model validated by the correspondence run, extraction, harness. The +-1 ppm round-trip clause is '
- 'proved by Flocq error analysis where listed in the evidence theorems, otherwise enforced by the oracle on the sampled range only (named _partial).'),
+ 'proved by Flocq error analysis where listed in the evidence theorems, otherwise enforced by the oracle on the sampled range only (named _partial). The drift clause is proved by Flocq error analysis '
+ '(Proofs/UnitsFloatProofs.v: six roundings of at most 2^-53 each, no underflow/overflow, one truncation) on the range named in the assumptions; '
+ 'C18_drift_oracle and C18_drift_add_oracle state that the model meets both drift oracles on all int64 inputs.'),
 )
